@@ -500,6 +500,9 @@ pub struct CplxPt {
     /// 0: y' = i w y (w = 1.5); 1: y' = (a + i b) y (a = -0.4, b = 2)
     pub which: usize,
     pub tol: f64,
+    /// initial state: 0: 0.8 - 0.3i, 1: (1 + i)/sqrt 2 (error vector at 45 degrees), 2: i, 3: -40 + 40i
+    #[serde(default)]
+    pub z0: usize,
 }
 pub struct ComplexTwin;
 impl Check for ComplexTwin {
@@ -508,14 +511,19 @@ impl Check for ComplexTwin {
         "complex-vs-real-twin"
     }
     fn rule(&self) -> String {
-        "complex problems y' = i w y and y' = (a+ib) y x 7 solvers x tolerances (Euler: steps), each solved as a complex scalar and as the equivalent real 2x2 system; both must satisfy the global bound and the complex error may not exceed 4x the real one; signature = (solver, problem, tolerance)".into()
+        "complex problems y' = i w y, y' = (a+ib) y and y' = y x 4 initial states (generic, 45 degrees, purely imaginary, amplitude 57) x 7 solvers x tolerances (Euler: steps), each solved as a complex scalar and as the equivalent real 2x2 system; both must satisfy the global bound and the complex error may not exceed 4x the real one; signature = (solver, problem, tolerance)".into()
     }
     fn points(&self, t: Tier) -> Vec<CplxPt> {
         let mut v = vec![];
         for &solver in &ALL_SOLVERS {
-            for which in 0..2 {
+            for which in 0..3 {
                 for &tol in &t.pick(vec![1e-4, 1e-8], vec![1e-3, 1e-5, 1e-7, 1e-9]) {
-                    v.push(CplxPt { solver, which, tol });
+                    for z0 in 0..4 {
+                        if which == 2 && z0 == 0 {
+                            continue;
+                        }
+                        v.push(CplxPt { solver, which, tol, z0 });
+                    }
                 }
             }
         }
@@ -523,7 +531,7 @@ impl Check for ComplexTwin {
     }
     fn run(&self, p: &CplxPt) -> Outcome {
         let mut o = Outcome::new();
-        let lam = if p.which == 0 { C64::new(0.0, 1.5) } else { C64::new(-0.4, 2.0) };
+        let lam = [C64::new(0.0, 1.5), C64::new(-0.4, 2.0), C64::new(1.0, 0.0)][p.which];
         let l = lam.norm();
         let (t0, t1) = (0.3, 0.3 + 2.0 / l);
         let cfg = if p.solver == Solver::Euler {
@@ -533,7 +541,9 @@ impl Check for ComplexTwin {
             let dtmax = step_cap(p.solver, p.tol, l);
             Cfg { tol: p.tol, dtmin: 1e-7 * dtmax, dtmax, t0, t1 }
         };
-        let z0 = C64::new(0.8, -0.3);
+        let z0 = [C64::new(0.8, -0.3), C64::from_polar(1.0, std::f64::consts::FRAC_PI_4), C64::new(0.0, 1.0), C64::new(-40.0, 40.0)][p.z0];
+        let amp = z0.norm() * (lam.re.max(0.0) * (t1 - t0)).exp();
+        let cfg = if p.solver == Solver::Euler { cfg } else { let d = cfg.dtmax.min(unseen_cap(p.solver, p.tol, l, amp)); Cfg { dtmax: d, dtmin: 1e-7 * d, ..cfg } };
         let lim = Limits { max_calls: 60_000_000, max_items: 4_000_000, extra_next: 0 };
         let rc: Rhs<C64> = Rc::new(move |_t, y| Ok(vec![lam * y[0]]));
         let oc = solve::<C64>(p.solver, DimMode::Static, &cfg, &[z0], rc, &lim);
@@ -549,7 +559,7 @@ impl Check for ComplexTwin {
         let er = or.items.iter().map(|(t, y)| (C64::new(y[0], y[1]) - exact(*t)).norm()).fold(0.0, f64::max);
         let g = ((l * (t1 - t0)).exp() - 1.0) / l;
         let bdf = matches!(p.solver, Solver::BDF6 | Solver::BDF2);
-        let bound = if p.solver == Solver::Euler { cfg.dtmax * l * l * z0.norm() * (0.0f64.max(lam.re) * (t1 - t0)).exp() / (2.0 * l) * ((l * (t1 - t0)).exp() - 1.0) * 1.5 } else { K * g * p.tol * if bdf { oc.items.len().max(1) as f64 } else { 1.0 } } + 1e-13;
+        let bound = if p.solver == Solver::Euler { cfg.dtmax * l * l * z0.norm() * (0.0f64.max(lam.re) * (t1 - t0)).exp() / (2.0 * l) * ((l * (t1 - t0)).exp() - 1.0) * 1.5 } else { K * g * p.tol * if bdf { oc.items.len().max(1) as f64 } else { 1.0 } } + 1e-13 * amp.max(1.0);
         o.metric(&format!("{}-complex-err/bound", p.solver.name()), ec / bound);
         if oc.items.is_empty() || end_name(&oc) != "Done" {
             o.viol(&subj, "complex-problem-is-solved", format!("{:?}: {} points, end {}", p, oc.items.len(), end_name(&oc)));
@@ -565,7 +575,7 @@ impl Check for ComplexTwin {
             }
         }
         o.executions = 2;
-        o.sig = format!("{}|{}|{:e}|{}", p.solver.name(), p.which, p.tol, end_name(&oc));
+        o.sig = format!("{}|{}|{:e}|{}|z{}", p.solver.name(), p.which, p.tol, end_name(&oc), p.z0);
         o
     }
 }
